@@ -110,6 +110,8 @@ Proof.
         try (eexists r, b, out, _; repeat split; eauto; fail).
       apply IH. repeat split; auto.
     + apply IH. repeat split; auto.
+    + apply IH. repeat split; auto.
+    + apply IH. repeat split; auto.
 Qed.
 
 (* allocation of the slots of an input vs. creation of its locals in the reference *)
@@ -196,8 +198,22 @@ Proof.
   destruct st; try apply IH.
   - destruct (memN k (c_consts s)).
     + destruct (IH (fail s)) as [A B]. split; [exact A|]. intro H. apply B in H. discriminate.
-    + destruct (IH (mkC (c_meths s) (k :: c_consts s) (c_locals s) (c_comp s) (c_bodies s) (c_err s))) as [A B]. auto.
+    + match goal with |- context [phase_namespaces ?s1 r] => destruct (IH s1) as [A B] end. auto.
   - destruct (IH (fail s)) as [A B]. split; [exact A|]. intro H. apply B in H. discriminate.
+  - destruct (lookup (c_tdefs s) a).
+    + destruct (IH (fail s)) as [A B]. split; [exact A|]. intro H. apply B in H. discriminate.
+    + match goal with |- context [phase_namespaces ?s1 r] => destruct (IH s1) as [A B] end. auto.
+  - destruct (memN c (c_classes s)); try apply IH.
+    match goal with |- context [phase_namespaces ?s1 r] => destruct (IH s1) as [A B] end. auto.
+Qed.
+
+Lemma ph_types : forall inp s,
+  c_comp (phase_types s inp) = c_comp s /\ (c_err (phase_types s inp) = false -> c_err s = false).
+Proof.
+  induction inp as [|st r IH]; intros s; simpl; auto.
+  destruct st; try apply IH.
+  match goal with |- context [phase_types ?s1 r] => destruct (IH s1) as [A B] end.
+  simpl in *. split; auto. intro H. apply B in H. apply orb_false_elim in H. tauto.
 Qed.
 
 Lemma ph_hoist : forall inp s,
@@ -238,7 +254,7 @@ Lemma check_program_comp : forall s inp,
   c_comp (check_program s inp) = CMain (fold_left add_slot (decl_names inp) (comp_slots (c_comp s))).
 Proof.
   intros s inp. unfold check_program.
-  set (s1 := phase_namespaces s inp). set (s2 := phase_compilers s1).
+  set (s1 := phase_namespaces s inp). set (s1' := phase_types s1 inp). set (s2 := phase_compilers s1').
   set (s3 := phase_hoist s2 inp). set (s4 := phase_consts s3 inp).
   set (s5 := phase_bodies s4). set (s6 := phase_exprs s5 inp).
   unfold phase_compile. destruct (c_err s6) eqn:E6; [intro H; congruence|]. simpl. intros _.
@@ -246,9 +262,10 @@ Proof.
   destruct (ph_bodies s4) as [C5 M5]. fold s5 in C5, M5.
   destruct (ph_consts inp s3) as [C4 M4]. fold s4 in C4, M4.
   destruct (ph_hoist inp s2) as [C3 M3]. fold s3 in C3, M3.
+  destruct (ph_types inp s1) as [C1' M1']. fold s1' in C1', M1'.
   destruct (ph_namespaces inp s) as [C1 M1]. fold s1 in C1, M1.
   assert (E2 : c_err s2 = false) by auto.
-  rewrite C6, C5, C4, C3. unfold s2, phase_compilers in *. simpl in *. rewrite E2. simpl. rewrite C1. reflexivity.
+  rewrite C6, C5, C4, C3. unfold s2, phase_compilers in *. simpl in *. rewrite E2. simpl. rewrite C1', C1. reflexivity.
 Qed.
 
 (* ------------------------------------------------------------ CheckSource / evaluate *)
@@ -256,10 +273,11 @@ Qed.
 Lemma check_source_rejected : forall s inp,
   c_err (check_source true s inp) = true ->
   let c1 := check_source true s inp in
-  c_meths c1 = c_meths s /\ c_consts c1 = c_consts s /\ c_locals c1 = c_locals s /\ c_comp c1 = c_comp s.
+  c_meths c1 = c_meths s /\ c_consts c1 = c_consts s /\ c_locals c1 = c_locals s /\ c_comp c1 = c_comp s /\
+  c_tdefs c1 = c_tdefs s /\ c_classes c1 = c_classes s.
 Proof.
   intros s inp. unfold check_source.
-  destruct (c_err (check_program (reset s) inp)) eqn:E; simpl; auto. congruence.
+  destruct (c_err (check_program (reset s) inp)) eqn:E; simpl; [repeat split; auto|congruence].
 Qed.
 
 Lemma check_source_accepted : forall fx s inp,
@@ -277,17 +295,18 @@ Proof.
   intros st inp st1. unfold incr_step; cbv zeta.
   destruct (c_err (check_source true (i_c st) inp)) eqn:E.
   - intro H. injection H as H. subst st1.
-    destruct (check_source_rejected (i_c st) inp E) as [A [B [C D]]].
-    unfold visible. simpl. rewrite A, B, C, D. reflexivity.
+    destruct (check_source_rejected (i_c st) inp E) as [A [B [C [D [T K]]]]].
+    unfold visible. simpl. rewrite A, B, C, D, T, K. reflexivity.
   - destruct (vm_input _ _ _) as [r1 res] eqn:V. unfold vm_input in V.
     destruct (vm_stmts _ _ _ _ _) as [[? ?] ?]. injection V as _ V. subst res. discriminate.
 Qed.
 
 Lemma check_source_vis : forall fx s1 s2 inp,
   c_meths s1 = c_meths s2 -> c_consts s1 = c_consts s2 -> c_locals s1 = c_locals s2 -> c_comp s1 = c_comp s2 ->
+  c_tdefs s1 = c_tdefs s2 -> c_classes s1 = c_classes s2 ->
   check_source fx s1 inp = check_source fx s2 inp.
 Proof.
-  intros fx [m1 k1 l1 c1 b1 e1] [m2 k2 l2 c2 b2 e2] inp; simpl; intros; subst.
+  intros fx [m1 k1 l1 c1 b1 e1 t1 n1] [m2 k2 l2 c2 b2 e2 t2 n2] inp; simpl; intros; subst.
   unfold check_source, reset. simpl. reflexivity.
 Qed.
 
@@ -295,9 +314,9 @@ Lemma incr_step_vis : forall fx st1 st2 inp,
   visible st1 = visible st2 -> incr_step fx st1 inp = incr_step fx st2 inp.
 Proof.
   intros fx [c1 r1] [c2 r2] inp. unfold visible. simpl. intro H.
-  injection H as Hm Hk Hl Hc Hrm Hrk Hrs.
+  injection H as Hm Hk Hl Hc Ht Hn Hrm Hrk Hrs.
   unfold incr_step; cbv zeta. simpl.
-  rewrite (check_source_vis fx c1 c2 inp Hm Hk Hl Hc).
+  rewrite (check_source_vis fx c1 c2 inp Hm Hk Hl Hc Ht Hn).
   destruct r1, r2; simpl in *; subst. reflexivity.
 Qed.
 
@@ -332,7 +351,7 @@ Proof.
   intros st b inp st1 res I. unfold incr_step; cbv zeta.
   destruct (c_err (check_source true (i_c st) inp)) eqn:E.
   - intro H. injection H as H1 H2. subst. left. split; auto.
-    destruct (check_source_rejected (i_c st) inp E) as [_ [_ [_ D]]].
+    destruct (check_source_rejected (i_c st) inp E) as [_ [_ [_ [D _]]]].
     unfold inv in *. simpl. rewrite D. exact I.
   - rewrite (check_source_accepted true (i_c st) inp E). simpl.
     destruct (input_sim (comp_slots (c_comp (i_c st))) inp (i_r st) b I) as [r1 [b1 [res1 [V [Rf [Ran R1]]]]]].
